@@ -17,7 +17,7 @@ RULE = ('Evaluation = one stage boundary (quiescent point after find_slices / fi
 ASSUMPTIONS = ['the chunk emptied by the crop (known finding D8, decided by C08) is not generated here']
 REQUIRED = ['single_valid_hit', 'all_nan', 'group_split_in_2', 'group_split_in_3', 'gt100_slices',
             'msa_crop_active', 'groups_fewer_than_slices', 'gt100_slices_with_split',
-            'nonunique_index_labels_with_crop']
+            'nonunique_index_labels_with_crop', 'gt10_groups_two_splits']
 SIZES = {'quick': dict(generic=330, bimodal=60, many=4), 'thorough': dict(generic=9000, bimodal=1500, many=40)}
 
 
@@ -26,20 +26,26 @@ def plan(tier, seed):
     out = []
     for i in range(z['generic']):
         out.append({'fam': 'generic', 's': seed, 'p': NUM, 'i': i,
-                    'k': {'big': i % 9 == 0, 'index': 'concat' if i % 4 == 1 else None}})
+                    'k': {'big': i % 9 == 0, 'index': 'concat' if i % 4 == 1 else None, 'anom': i % 3 == 2}})
     for i in range(z['bimodal']):
         out.append({'fam': 'bimodal', 's': seed, 'p': NUM, 'i': 100000 + i,
                     'k': {'third': i % 2 == 0, 'nce': 1 + i % 2, 'lookback': 100, 'bins': 0,
                           'prm_over': {'MSA': 5000.0, 'MSA_HIT_BUFFER': 500.0} if i % 3 == 0 else {}}})
     for i, kind in enumerate(scenes.DEGENERATE_KINDS * (1 if tier == 'quick' else 12)):
         out.append({'fam': 'degenerate', 's': seed, 'p': NUM, 'i': 200000 + i, 'k': {'kind': kind}})
+    nref = 17 * (2 if tier == 'quick' else 24)
+    for i in range(nref):        # real-world reference scenes of the repository (perturbed), random parameters
+        out.append({'fam': 'refdata', 's': seed, 'p': NUM, 'i': 700000 + i,
+                    'k': {'file': i % 17, 'perturb': (i // 17) % 5, 'default_prms': i < 17}})
+    for i in range(3 if tier == 'quick' else 40):       # > 10 groups, several of them split
+        out.append({'fam': 'manysplit', 's': seed, 'p': NUM, 'i': 400000 + i})
     for i in range(z['many']):
         out.append({'fam': 'manyslices', 's': seed, 'p': NUM, 'i': 300000 + i})
     return out
 
 
 def weight(d):
-    return 12.0 if d['fam'] == 'manyslices' else 0.35
+    return {'manyslices': 12.0, 'manysplit': 3.0}.get(d['fam'], 0.35)
 
 
 def check(desc):
@@ -67,6 +73,8 @@ def check(desc):
             tags.add('crashed:' + type(e).__name__)
     if case['scene'].get('index') is not None and 'msa_crop_active' in tags:
         tags.add('nonunique_index_labels_with_crop')
+    if not res['counters'].get('crashed') and ch.n_groups is not None and ch.n_groups > 10 and (ch.groups['ncomp'] > 1).sum() >= 2:
+        tags.add('gt10_groups_two_splits')
     if 'gt100_slices' in tags and any(t.startswith('group_split_in') for t in tags):
         tags.add('gt100_slices_with_split')
     viol += [b for b in rec.broken if b['prop'] == 'C05']
